@@ -125,7 +125,18 @@ Proof.
   - apply (subdivision_tiles_orient_ cs c i0 [] split_entry Hsub Hx Hg). apply convex_good; auto.
 Qed.
 
-(** ** triangulate_column: the fan, any number of nodes *)
+(** ** split_column, then triangulate_column of the shrunk column (a composition: "earlier
+    refinements" as inputs).  The shrunk column's centre afterwards is [split_new_centre]: the
+    centroid of the remaining triangle iff split_column recomputes it unconditionally
+    ([gen_split_recentre], read from the AST), otherwise the old centre. *)
+Definition split_kept (cs : list pt) (c : pt) (i0 : nat) : list pt := map (vpos cs c i0) (nth 0 split_entry []).
+Definition split_new_centre (c_old : pt) (kept : list pt) : pt := if gen_split_recentre then rcentroid kept else c_old.
+Lemma good_tri_convex a b c : (0 < orient a b c)%R -> convex_ccw [a; b; c].
+Proof.
+  intro H. destruct a, b, c. unfold orient in H. cbn [fst snd] in H.
+  crunch. repeat (apply Forall_cons; [lra|]). apply Forall_nil.
+Qed.
+
 Lemma zsum_map_add {A} (f g : A -> Z) l : zsum (map (fun x => (f x + g x)%Z) l) = (zsum (map f l) + zsum (map g l))%Z.
 Proof. induction l as [|x l IH]; cbn [map zsum]; lia. Qed.
 Lemma zsum_map_opp {A} (f : A -> Z) l : zsum (map (fun x => (- f x)%Z) l) = (- zsum (map f l))%Z.
@@ -180,6 +191,28 @@ Proof.
   split; [exact E|]. split; intro Hw.
   - apply all01_sum1; auto. congruence.
   - apply all01_sum0; auto. congruence.
+Qed.
+
+Lemma split_then_triangulate_tiles_ (cs : list pt) (c_old : pt) i0 :
+  length cs = 4 -> i0 < 4 -> convex_ccw cs ->
+  let kept := split_kept cs c_old i0 in
+  let c' := split_new_centre c_old kept in
+  length kept = 3 /\ convex_ccw kept /\ interior kept c' /\
+  forall p, zsum (child_wns kept c' 0 (fan 3) p) = wn kept p /\
+            (wn kept p = 1%Z -> exactly_one (child_wns kept c' 0 (fan 3) p)) /\
+            (wn kept p = 0%Z -> forall j, nth j (child_wns kept c' 0 (fan 3) p) 0%Z = 0%Z).
+Proof.
+  intros Hl Hi Hc kept c'.
+  pose proof (split_good_gen cs c_old i0 Hl Hi Hc) as Hg. unfold children_good in Hg.
+  assert (Hk : good_poly kept).
+  { rewrite Forall_forall in Hg. apply Hg. unfold split_entry. apply nth_In. vm_compute. lia. }
+  assert (Hlen : length kept = 3) by (unfold kept, split_kept; rewrite map_length; vm_compute; reflexivity).
+  destruct kept as [|a [|b [|c [|x r]]]] eqn:E; try discriminate Hlen. cbn [good_poly] in Hk.
+  pose proof (good_tri_convex a b c Hk) as Hcv.
+  assert (Hin : interior [a; b; c] c').
+  { unfold c', split_new_centre. change gen_split_recentre with true. cbv iota. apply centroid_ok_tri; auto. }
+  split; [reflexivity|]. split; [auto|]. split; [auto|].
+  apply (fan_tiles_ [a; b; c] c' Hin).
 Qed.
 
 (** ** decompose_column: whichever branch it takes, every point keeps its multiplicity *)
